@@ -165,6 +165,9 @@ ZERO = Lin.const(0)
 ONE = Lin.const(1)
 
 
+_UNSAT_CACHE = {}
+
+
 class Facts:
     """Conjunction of constraints  l >= 0  (Lin)."""
 
@@ -208,6 +211,16 @@ class Facts:
 
     # ---- entailment
     def _unsat(self, cons):
+        key = frozenset(cons)
+        r = _UNSAT_CACHE.get(key)
+        if r is None:
+            r = self._unsat_uncached(cons)
+            if len(_UNSAT_CACHE) > 400000:
+                _UNSAT_CACHE.clear()
+            _UNSAT_CACHE[key] = r
+        return r
+
+    def _unsat_uncached(self, cons):
         # product lemmas: pairwise products of degree-1 constraints whose monomials already occur
         monos = set()
         for l in cons:
@@ -223,7 +236,7 @@ class Facts:
                         extra.append(p)
         rows = []
         for l in cons + extra:
-            rows.append((dict((m, Fraction(k)) for m, k in l.t), Fraction(l.c)))
+            rows.append((dict(l.t), l.c))
         return _fm_unsat(rows)
 
     def prove_ge(self, l):
@@ -326,30 +339,43 @@ def neg_cond(cond):
 
 
 def _fm_unsat(rows):
-    """rows: list of (coeffs dict, const) meaning sum + const >= 0.  True iff infeasible over Q."""
-    rows = [(dict((m, k) for m, k in co.items() if k != 0), c) for co, c in rows]
+    """rows: list of (coeffs dict, const) meaning sum + const >= 0 (integer coefficients).
+    True iff infeasible over Q (Fourier-Motzkin with integer arithmetic, rows kept primitive)."""
+    from math import gcd
+
+    def prim(co, c):
+        g = 0
+        for k in co.values():
+            g = gcd(g, abs(k))
+        g = gcd(g, abs(c)) if g else 0
+        if g > 1:
+            return {m: k // g for m, k in co.items()}, c // g
+        return co, c
+
+    cur = []
+    for co, c in rows:
+        co = {m: int(k) for m, k in co.items() if k != 0}
+        cur.append(prim(co, int(c)))
     for _ in range(64):
-        # trivial contradiction?
         nr = []
-        seen = set()
-        for co, c in rows:
+        seen = {}
+        for co, c in cur:
             if not co:
                 if c < 0:
                     return True
                 continue
-            # normalise for dedup
-            lead = abs(next(iter(sorted(co.items())))[1])
-            key = (tuple(sorted((m, k / lead) for m, k in co.items())), c / lead)
+            key = tuple(sorted(co.items()))
+            # same left-hand side: keep the tighter (smaller constant)
             if key in seen:
+                if c < seen[key]:
+                    seen[key] = c
                 continue
-            seen.add(key)
-            nr.append((co, c))
-        rows = nr
-        if not rows:
+            seen[key] = c
+        cur = [(dict(k), c) for k, c in seen.items()]
+        if not cur:
             return False
-        # choose variable with fewest pos*neg products
         vars_ = {}
-        for co, c in rows:
+        for co, c in cur:
             for m, k in co.items():
                 p, n_ = vars_.get(m, (0, 0))
                 if k > 0:
@@ -357,23 +383,31 @@ def _fm_unsat(rows):
                 else:
                     vars_[m] = (p, n_ + 1)
         v = min(vars_, key=lambda m: (vars_[m][0] * vars_[m][1], m))
-        pos = [(co, c) for co, c in rows if co.get(v, 0) > 0]
-        neg = [(co, c) for co, c in rows if co.get(v, 0) < 0]
-        rest = [(co, c) for co, c in rows if co.get(v, 0) == 0]
-        if len(pos) * len(neg) > 4000:
+        pos = [(co, c) for co, c in cur if co.get(v, 0) > 0]
+        neg = [(co, c) for co, c in cur if co.get(v, 0) < 0]
+        rest = [(co, c) for co, c in cur if co.get(v, 0) == 0]
+        if len(pos) * len(neg) > 6000:
             return False
         for pco, pc in pos:
+            a = pco[v]
             for nco, nc in neg:
-                a = pco[v]
                 b = -nco[v]
                 co = {}
                 for m, k in pco.items():
                     if m != v:
-                        co[m] = co.get(m, 0) + k * b
+                        co[m] = k * b
                 for m, k in nco.items():
                     if m != v:
-                        co[m] = co.get(m, 0) + k * a
-                co = dict((m, k) for m, k in co.items() if k != 0)
-                rest.append((co, pc * b + nc * a))
-        rows = rest
+                        x = co.get(m, 0) + k * a
+                        if x:
+                            co[m] = x
+                        elif m in co:
+                            del co[m]
+                cc = pc * b + nc * a
+                if not co:
+                    if cc < 0:
+                        return True
+                    continue
+                rest.append(prim(co, cc))
+        cur = rest
     return False
